@@ -287,6 +287,8 @@ View      == state
 \* EmitEvery generated transitions instead of one per transition - printing dominates the exploration time.
 EmitEvery  == IF "VERIF_EMIT_EVERY" \in DOMAIN IOEnv THEN atoi(IOEnv.VERIF_EMIT_EVERY) ELSE 1
 EmitOffset == IF "VERIF_EMIT_OFFSET" \in DOMAIN IOEnv THEN atoi(IOEnv.VERIF_EMIT_OFFSET) ELSE 0
+\* vacuity probe: with VERIF_NEVER_OP set this invariant is violated as soon as that operation is taken
+NeverOp    == ("VERIF_NEVER_OP" \in DOMAIN IOEnv) => (hist = <<>> \/ hist[Len(hist)].op # IOEnv.VERIF_NEVER_OP)
 Sampled    == EmitEvery <= 1 \/ TLCGet("generated") % EmitEvery = EmitOffset % EmitEvery
 EmitStep  == Sampled => PrintT(<<"TRACE", ToJson([steps |-> hist', exp |-> Obs'])>>)
 EmitFull  == (Len(hist) >= MaxHist) => PrintT(<<"TRACE", ToJson([steps |-> hist])>>)
